@@ -35,12 +35,23 @@ def freq_table():
     return out
 
 
+LOADERS, COUNT = {}, [0]
+
+
 def observe_case(case, workdir):
     path = os.path.join(workdir, 'case%d.hpoa' % os.getpid())
     with open(path, 'w', encoding='utf-8') as fh:
         fh.write(case['text'])
     try:
-        loader = SimpleHpoaDiseaseLoader(HPO, cohort_size=case['cohort'], salvage_negated_frequencies=case['salvage'])
+        # two cases out of three go through a loader instance that has loaded other files before (one per configuration, kept
+        # for the whole run): what a loader returns is a function of the file alone
+        COUNT[0] += 1
+        key = (case['cohort'], case['salvage'])
+        if COUNT[0] % 3 and key in LOADERS:
+            loader = LOADERS[key]
+        else:
+            loader = SimpleHpoaDiseaseLoader(HPO, cohort_size=case['cohort'], salvage_negated_frequencies=case['salvage'])
+            LOADERS.setdefault(key, loader)
         try:
             ds = loader.load(path)
         except Exception as e:
